@@ -67,6 +67,7 @@ def union_no_overlap(events1: List[Event], events2: List[Event]) -> List[Event]:
         elif e2.timestamp < e1.timestamp:
             # e2 starts before e1: keep the part before e1 and continue with the rest
             e2_head, e2_rest = _split_event(e2, e1.timestamp)
+            assert e2_rest is not None  # e1 starts strictly inside e2
             events_union.append(e2_head)
             events2[e2_i] = e2_rest
         elif e1_end < e2_end:
@@ -75,6 +76,7 @@ def union_no_overlap(events1: List[Event], events2: List[Event]) -> List[Event]:
             # also guarantees progress when the remainder's start gets floored back to
             # the millisecond because e1 ends on a sub-millisecond instant)
             _, e2_rest = _split_event(e2, e1_end)
+            assert e2_rest is not None  # e1 ends strictly inside e2
             events2[e2_i] = e2_rest
             events_union.append(e1)
             e1_i += 1
